@@ -665,8 +665,9 @@ func (state *BuildState) forwardResults() {
 			case <-t.C:
 				go state.checkForCycles()
 				go dumpGoroutineInfo()
-				// Still need to get a result!
-				result = <-state.progress.internalResults
+				// Still need to get a result! Go round again rather than just waiting for one so that
+				// we check again later; the graph may not have been complete when the timer fired.
+				continue
 			}
 		} else {
 			result = <-state.progress.internalResults
